@@ -222,6 +222,9 @@ def check(ctx, rep):
     from .c16 import rule_args_info_fresh
 
     rule_args_info_fresh(ctx, rep)
+    from .c07 import rule_scan_all
+
+    rule_scan_all(ctx, rep)
     rep.not_covered += [
         "agreement of semgrep positions with libcst positions for all spellings (line/column matching)",
         "semgrep's matching semantics in general (metavariable unification, taint propagation)",
